@@ -25,7 +25,7 @@ func (c17) Runs(tier string) int {
 	return 160
 }
 func (c17) Rule() string {
-	return "per run one generated tree whose pages carry unique sentinels in every text chunk and a failure-point placeholder at every statement boundary (top level, inside if/else, loops, inserts, component slots). For one page ALL cells of {each failure point p (a failing statement of one of three kinds substituted at p), no failure, template does not exist} x {debug on, off} x {no custom error page, valid one, one that fails at run time, missing one} x {healthy writer, write error on call 1, short write on call 1} are executed, each from reset + NewTemplate(cfg). Reference model (DESIGN §6 C17): String() run alone decides success/failure; on success the offered bytes equal its output and nil is returned; on failure a non-nil error, no sentinel of the failed page, body == custom page rendering (debug off, working custom page) / empty-or-built-in (custom page fails or is missing) / built-in page for (error, debug) otherwise, where the built-in page is obtained by rendering the repository's own default-error-page.tw through EvaluateString; debug off => neither message, path, template directory nor cwd in the body (raw and HTML-unescaped); debug on => message, path and line present. Under writer faults only: no panic and the same offered bytes. evaluations = Response calls. distinct_nontrivial = distinct (tree, page, failure point, debug, custom) cells in which the render failed after at least one sentinel chunk had been produced."
+	return "per run one generated tree whose pages carry unique sentinels in every text chunk and a failure-point placeholder at every statement boundary (top level, inside if/else, loops, inserts, component slots). For one page ALL cells of {each failure point p (a failing statement of one of three kinds substituted at p), no failure, template does not exist} x {debug on, off} x {no custom error page, valid one, one that fails at run time, missing one} x {healthy writer, write error on call 1, short write on call 1} are executed, each from reset + NewTemplate(cfg). Reference model (DESIGN §6 C17): String() run alone decides success/failure; on success the offered bytes equal its output and nil is returned; on failure a non-nil error, no sentinel of the failed page, body == custom page rendering (debug off, working custom page) / empty-or-built-in (custom page fails or is missing) / built-in page for (error, debug) otherwise, where the built-in page is obtained by rendering the repository's own default-error-page.tw through EvaluateString; debug off => neither message, path, template directory nor cwd in the body (raw and HTML-unescaped); debug on => message, path and line present. Under writer faults only: no panic, and the offered bytes are a prefix of what a healthy writer is offered (no second page). evaluations = Response calls. distinct_nontrivial = distinct (tree, page, failure point, debug, custom) cells in which the render failed after at least one sentinel chunk had been produced."
 }
 func (c17) Assumptions() []string {
 	return []string{
@@ -137,6 +137,21 @@ func containsEither(body, needle string) bool {
 
 // checkC17 executes a cell and applies the reference model.
 func checkC17(sc *Scenario, acc *Acc) (*c17Fail, bool, bool) {
+	f, late, bad := checkC17Cfg(sc, acc, nil)
+	if stale, _ := sc.Extra["stale"].(bool); stale && f != nil && !bad && len(sc.Prior) > 0 {
+		// An older Template used after a newer NewTemplate: whether the configuration is
+		// process-global (textwire today) or bound to the Template at load time is a design
+		// choice no claimed property fixes. Either reading is accepted, but it must hold as a
+		// whole: the model is applied again under the configuration the older Template was
+		// loaded with.
+		if f2, _, bad2 := checkC17Cfg(sc, nil, sc.Prior[len(sc.Prior)-1].Setup[0].Cfg); !bad2 && f2 == nil {
+			return nil, late, false
+		}
+	}
+	return f, late, bad
+}
+
+func checkC17Cfg(sc *Scenario, acc *Acc, cfgOverride *Cfg) (*c17Fail, bool, bool) {
 	var w *World
 	var ok bool
 	if len(sc.Prior) > 0 {
@@ -170,6 +185,9 @@ func checkC17(sc *Scenario, acc *Acc) (*c17Fail, bool, bool) {
 		return nil, false, true
 	}
 	cfg := sc.Setup[0].Cfg
+	if cfgOverride != nil {
+		cfg = cfgOverride
+	}
 	sentinel, _ := sc.Extra["sentinel"].(string)
 	tpldir, _ := sc.Extra["tpldir"].(string)
 	str := w.RunOp(sc.Ops[0], Budget)
@@ -286,8 +304,10 @@ func checkC17(sc *Scenario, acc *Acc) (*c17Fail, bool, bool) {
 		if o.Kind == "panic" || o.Kind == "abort" {
 			return &c17Fail{"Response panics or hangs when the writer fails", "writer-fault-" + o.Kind, "", o.Short()}, failedLate, false
 		}
-		if o.Body != resp.Body {
-			return &c17Fail{"a failing writer is offered other bytes than a healthy one", "writer-fault-other-bytes", short(resp.Body), short(o.Body)}, failedLate, false
+		// a writer that fails may be offered less (an implementation may write in pieces and stop at
+		// the first failure) but never anything else: no second page, no other content
+		if !strings.HasPrefix(resp.Body, o.Body) {
+			return &c17Fail{"a failing writer is offered bytes that are not a prefix of what a healthy one gets", "writer-fault-other-bytes", "a prefix of " + short(resp.Body), short(o.Body)}, failedLate, false
 		}
 	}
 	return nil, failedLate, false
